@@ -5,7 +5,7 @@ import props
 ROOT = os.path.dirname(os.path.abspath(__file__))
 ids = [json.loads(l)['id'] for l in open(os.path.join(ROOT, 'properties.jsonl'))]
 hooks_commits = subprocess.run(['git', '-C', '/repo', 'log', '--format=%h %s'], capture_output=True, text=True).stdout.splitlines()
-hook_commits = [l.split()[0] for l in hooks_commits if l.split(' ', 1)[1].startswith('verif hooks')]
+hook_commits = [l.split()[0] for l in hooks_commits if l.split(' ', 1)[1].startswith('verif hook')]
 checks = []
 for pid in ids:
     if pid not in props.PROPS:
